@@ -187,6 +187,8 @@ var c15Params = []string{
 	`{"a":1,"b":2}`, `[1,2]`, `{"a":1,"b":2,"c":3}`, `[1,2,3]`, `{"A":7}`, `{"A":7,"extra":true}`, `[7]`, `[1, 2 ]`, ` [ 1 ] `, `[null,null]`, `{"A":null}`, `[[1,2],3]`, `{"k":1,"j":2}`, `[1.5]`, `1.5`,
 	`"low"`, `"medium"`, `["high","medium"]`, `[{"A":1,"b":"x"}]`, `[{"A":1,"zz":2}]`, `{"k":{"A":1,"b":"y"}}`, `{"k":{"A":1,"zz":2}}`, `[{"x":1,"nope":0}]`,
 	`{"-":4,"o":"x"}`, `[4,"x",9]`,
+	// a request that is refused after part of it has been decoded, then one that omits those parts
+	`{"A":9,"b":5}`, `{"b":"only"}`, `[8,[]]`, `{}`, `{"x":7,"why":"no"}`, `{"why":[4]}`, `{"k":3,"j":"no"}`, `{"j":1}`, `[{"A":1},{"A":"no"}]`, `[{"b":"z"}]`,
 }
 
 func TestC15(t *testing.T) {
@@ -292,27 +294,49 @@ func TestC15(t *testing.T) {
 	var wl []string
 	var wcs []*wcase
 	argTypes := append([]reflect.Type{nil, tReq}, c15ArgTypes...)
+	// One function and ONE wrapped handler per (parameter type, options), used for all the params
+	// texts in turn - as a registered handler is: a request that was refused half-way through
+	// decoding must leave nothing behind for the next. Functions of one parameter type share their Go
+	// type; the non-default options come first and the defaults are left untouched (no setter
+	// called), so that settings cannot travel from one function to another of the same type unseen.
 	for _, arg := range argTypes {
-		for _, strict := range []bool{false, true} {
-			for _, allowArray := range []bool{true, false} {
-				for _, params := range c15Params {
-					wc := &wcase{arg: arg, strict: strict, allowArray: allowArray, params: params}
-					ins := []reflect.Type{tCtx}
-					if arg != nil {
-						ins = append(ins, arg)
+		for _, strict := range []bool{true, false} {
+			for _, allowArray := range []bool{false, true} {
+				var wc *wcase
+				ins := []reflect.Type{tCtx}
+				if arg != nil {
+					ins = append(ins, arg)
+				}
+				ft := reflect.FuncOf(ins, []reflect.Type{reflect.TypeOf(""), tErr}, false)
+				fn := reflect.MakeFunc(ft, func(args []reflect.Value) []reflect.Value {
+					wc.called++
+					if len(args) > 1 {
+						wc.got = args[1].Interface()
 					}
-					ft := reflect.FuncOf(ins, []reflect.Type{reflect.TypeOf(""), tErr}, false)
-					fn := reflect.MakeFunc(ft, func(args []reflect.Value) []reflect.Value {
-						wc.called++
-						if len(args) > 1 {
-							wc.got = args[1].Interface()
+					return []reflect.Value{reflect.ValueOf("result"), reflect.Zero(tErr)}
+				}).Interface()
+				fi, err := handler.Check(fn)
+				if err != nil {
+					continue
+				}
+				if strict {
+					fi.SetStrict(true)
+				}
+				if !allowArray {
+					fi.AllowArray(false)
+				}
+				var h jrpc2.Handler
+				wrapPanic := ""
+				func() {
+					defer func() {
+						if p := recover(); p != nil {
+							wrapPanic = fmt.Sprint(p)
 						}
-						return []reflect.Value{reflect.ValueOf("result"), reflect.Zero(tErr)}
-					}).Interface()
-					fi, err := handler.Check(fn)
-					if err != nil {
-						continue
-					}
+					}()
+					h = fi.Wrap()
+				}()
+				for _, params := range c15Params {
+					wc = &wcase{arg: arg, strict: strict, allowArray: allowArray, params: params}
 					text := fmt.Sprintf(`{"jsonrpc":"2.0","id":1,"method":"m","params":%s}`, params)
 					if params == "" {
 						text = `{"jsonrpc":"2.0","id":1,"method":"m"}`
@@ -328,7 +352,9 @@ func TestC15(t *testing.T) {
 								wc.panicked = fmt.Sprint(p)
 							}
 						}()
-						h := fi.SetStrict(strict).AllowArray(allowArray).Wrap()
+						if wrapPanic != "" {
+							panic("Wrap: " + wrapPanic)
+						}
 						wc.rval, wc.rerr = h(ctx, wc.req)
 					}()
 					names := docFieldNames(arg)
